@@ -971,8 +971,8 @@ def run(seed: int, n: int, driver: str = DEFAULT_DRIVER, thorough: bool = False)
             w.oracle["fresh_process_agrees"]["cases"] += 1
             if a != b:
                 w.fail("fresh_process_agrees", c, f"in this process {json.dumps(a)[:300]} / in a fresh interpreter {json.dumps(b)[:300]}")
-        # a relative pulse import whose name clashes with a module that is already imported: only in a fresh interpreter,
-        # because on a tree that has the defect the calls poison every later call of the process
+        # a relative pulse import whose name clashes with a module that is already imported: in a fresh interpreter (on a tree
+        # that has the defect the calls poison every later call of the process), and in this process at the very end of run()
         good = {"kind": "run", "text": "register q[2]\nprepare_all\nX q[0]\nmeasure_all\n", "gs": True}
         bad = {"kind": "run", "text": "register q[2]\nX q[0]\n", "gs": True}
         perr = {"kind": "parse", "text": "register q[2]\nX q[5] $\n", "gs": True, "flags": {}}
@@ -995,6 +995,20 @@ def run(seed: int, n: int, driver: str = DEFAULT_DRIVER, thorough: bool = False)
                     w.fail("no_sticky_state", dict(case, after=calls[k]["clash"]),
                            f"after `from .{calls[k]['clash']} usepulses *`: {json.dumps(outs[k + 1:k + 4])[:400]} / before: {json.dumps(outs[0:3])[:400]}")
                     break
+        # the same in this process (last: a tree with the defect is poisoned from here on)
+        base = [canon_call(c, pd.path)[0] for c in (good, bad, perr)]
+        for m in ("harness", "json", "sly", "jaqalpaq.error", "jaqalpaq.core", "jaqalpaq"):
+            call = {"kind": "autoload", "text": f"from .{m} usepulses *\nregister q[1]\n", "with_path": True, "clash": m}
+            out = check_call(w, call, pulse_path=pd.path, stream="module_name_clash")
+            w.oracle["only_jaqalerror_or_importerror"]["cases"] += 1
+            if out.get("err") != "ImportError":
+                w.fail("only_jaqalerror_or_importerror", call, f"expected ImportError, got {json.dumps(out)[:200]}")
+            after = [canon_call(c, pd.path)[0] for c in (good, bad, perr)]
+            w.oracle["no_sticky_state"]["cases"] += 1
+            if after != base:
+                w.fail("no_sticky_state", {"kind": "fresh_sequence", "stream": "module_name_clash", "calls": [good, bad, perr, call, good, bad, perr]},
+                       f"in this process, after `from .{m} usepulses *`: {json.dumps(after)[:400]} / before: {json.dumps(base)[:400]}")
+                break
     finally:
         pd.close()
 
